@@ -34,6 +34,7 @@ mod cidecho;
 mod wire;
 mod inject;
 mod txlog;
+mod multi;
 
 pub use snapshot::{PathSnap, Snapshot, SpaceSnap, StreamsSnap};
 pub use inject::{FrameProbe, Inject, StreamProbe};
